@@ -975,6 +975,11 @@ fn hostile(pats: &Pats, h: &[u8], s: usize, e: usize, variant: usize) -> Vec<u8>
 
 pub fn run_c10(rep: &Report) -> i32 {
     let t = rep.thorough();
+    {
+        let mut st = Stats::default();
+        check_input_forms(rep, &mut st);
+        rep.merge(&st);
+    }
     // part A: automata, every span of every short haystack, all APIs, both anchoring modes
     let mut lists: Vec<(Pats, bool)> = universe::u0().into_iter().map(|l| (l, false)).collect();
     for (_, l) in universe::uadv(false).into_iter().filter(|(n, _)| ["empty-middle", "samwise", "overlap-abab", "suffixes-rot0", "a^3b", "dups-mixed"].contains(&n.as_str())) {
@@ -1098,7 +1103,7 @@ pub fn run_c10(rep: &Report) -> i32 {
     let cov = J::obj()
         .set("evaluations", J::i(ev.max(1)))
         .set("distinct_nontrivial", J::i(rep.get("nontrivial_spans")))
-        .set("rule", J::s("part A: pattern lists (all lists of <= 2 patterns over {a,b} len <= 2, adversarial lists, every prefilter family incl. case-insensitive) x 3 match kinds x 3 automaton kinds x prefilter on/off: for every haystack over sigma(P)+bottom up to the budgeted length and EVERY span 0<=s<=e<=len plus s=e+1, unanchored and anchored: (1) result on (haystack, span) == result on the sub-slice shifted by s, for try_find, find_iter, is_match, earliest existence and overlapping; (2) identical result after replacing every byte outside the span by hostile pattern material (two alignments); (3) every match inside the span. Long haystacks with the core at vector-relevant offsets for prefilter families. part B: every packed variant: find_in span == sub-slice shifted == hostile outside. A span is non-trivial when it is a proper sub-span and the search inside it finds a match"))
+        .set("rule", J::s("part A: pattern lists (all lists of <= 2 patterns over {a,b} len <= 2, adversarial lists, every prefilter family incl. case-insensitive) x 3 match kinds x 3 automaton kinds x prefilter on/off: for every haystack over sigma(P)+bottom up to the budgeted length and EVERY span 0<=s<=e<=len plus s=e+1, unanchored and anchored: (1) result on (haystack, span) == result on the sub-slice shifted by s, for try_find, find_iter, is_match, earliest existence and overlapping; (2) identical result after replacing every byte outside the span by hostile pattern material (two alignments); (3) every match inside the span. Long haystacks with the core at vector-relevant offsets for prefilter families. part B: every packed variant: find_in span == sub-slice shifted == hostile outside. part C: every way of stating the span (span, range with every bound kind, set_span, set_range, set_start/set_end in both orders, also starting from a narrowed Input) on haystack lengths 0..=5 and every valid (s, e) incl. s=e+1 gives the same Input (accessors, is_done) and the same find result; Span / Match accessors. A span is non-trivial when it is a proper sub-span and the search inside it finds a match"))
         .set("exhaustive", J::Bool(true))
         .set("bounds", J::s("automata: haystack length <= 6 (budgeted by alphabet size), all spans; vector paths: total length <= 72, 6 span forms per template"))
         .set("design_ref", J::s("4, 7 (C10)"));
@@ -1176,6 +1181,145 @@ fn check_span(rep: &Report, st: &mut Stats, ac: &AhoCorasick, pats: &Pats, kind:
     }
 }
 
+/// Every way the public API offers to say "search haystack[s..e]" must
+/// describe the same search: `span`, `range` with every kind of bound,
+/// `set_span`, `set_range`, `set_start` + `set_end` in both orders. Also the
+/// accessors of `Input`, `Span` and `Match` that callers use to interpret a
+/// result. Exhaustive over haystack lengths 0..=5 and every valid (s, e),
+/// including s = e + 1.
+fn check_input_forms(rep: &Report, st: &mut Stats) {
+    use std::ops::Bound;
+    let pats: Pats = vec![b("ab"), b("b"), b("")];
+    let ac = match build_ac(&pats, Kind::Std, false, AhoCorasickKind::NoncontiguousNFA, true) {
+        Ok(a) => a,
+        Err(e) => {
+            rep.machinery(format!("input forms: build failed: {}", e));
+            return;
+        }
+    };
+    let full = b("ababb");
+    let describe = |i: &Input<'_>| -> String {
+        format!(
+            "start={} end={} span={:?} range={:?} done={} anchored={:?} earliest={} find={:?}",
+            i.start(), i.end(), i.get_span(), i.get_range(), i.is_done(), i.get_anchored(), i.get_earliest(),
+            ac.try_find(i.clone()).map(|o| o.map(mm)).map_err(|e| e.to_string())
+        )
+    };
+    let mut bad = |form: &str, h: &[u8], s: usize, e: usize, got: String, want: &str| {
+        rep.violation(Violation {
+            property: rep.property.clone(),
+            what: "input-form-differs".into(),
+            case: ac_case("input-forms", &pats, Kind::Std, false, AhoCorasickKind::NoncontiguousNFA, h, s, e, false),
+            detail: format!("Input for \"{}\"[{}..{}] built with {}: {} but span(Span{{start,end}}) gives {}", json::show(h), s, e, form, got, want),
+            tags: vec![],
+        });
+    };
+    for n in 0..=full.len() {
+        let h = &full[..n];
+        for s in 0..=n + 1 {
+            for e in s.saturating_sub(1)..=n {
+                if s > e + 1 || s > n + 1 || (s == n + 1 && e != n) {
+                    continue;
+                }
+                let reference = match catch_unwind(AssertUnwindSafe(|| describe(&Input::new(h).span(Span { start: s, end: e })))) {
+                    Ok(r) => r,
+                    Err(p) => {
+                        bad("span(Span{start,end})", h, s, e, format!("PANIC {}", crate::aut::panic_msg(&p)), "(a valid span)");
+                        continue;
+                    }
+                };
+                if (s > e) != reference.contains("done=true") {
+                    bad("is_done", h, s, e, reference.clone(), "is_done() == (start > end)");
+                }
+                let want_prefix = format!("start={} end={} span={}..{} range={}..{} ", s, e, s, e, s, e);
+                if !reference.starts_with(&want_prefix) {
+                    bad("accessors", h, s, e, reference.clone(), &want_prefix);
+                }
+                let mut forms: Vec<(&str, Box<dyn Fn() -> String + '_>)> = vec![];
+                forms.push(("set_span", Box::new(|| { let mut i = Input::new(h); i.set_span(Span { start: s, end: e }); describe(&i) })));
+                forms.push(("set_end then set_start", Box::new(|| { let mut i = Input::new(h); i.set_end(e); i.set_start(s); describe(&i) })));
+                forms.push(("set_start then set_end", Box::new(|| { let mut i = Input::new(h); if s <= n { i.set_start(s); i.set_end(e); } else { i.set_end(e); i.set_start(s); } describe(&i) })));
+                forms.push(("From<&H> + set_span", Box::new(|| { let mut i: Input<'_> = Input::from(h); i.set_span(Span { start: s, end: e }); describe(&i) })));
+                if s <= e {
+                    forms.push(("span(s..e)", Box::new(|| describe(&Input::new(h).span(s..e)))));
+                    forms.push(("range(s..e)", Box::new(|| describe(&Input::new(h).range(s..e)))));
+                    forms.push(("set_range(s..e)", Box::new(|| { let mut i = Input::new(h); i.set_range(s..e); describe(&i) })));
+                    forms.push(("range((Included(s), Excluded(e)))", Box::new(|| describe(&Input::new(h).range((Bound::Included(s), Bound::Excluded(e)))))));
+                    if e > s {
+                        forms.push(("range(s..=e-1)", Box::new(|| describe(&Input::new(h).range(s..=e - 1)))));
+                        forms.push(("set_range(s..=e-1)", Box::new(|| { let mut i = Input::new(h); i.set_range(s..=e - 1); describe(&i) })));
+                    }
+                    if s > 0 {
+                        forms.push(("range((Excluded(s-1), Excluded(e)))", Box::new(|| describe(&Input::new(h).range((Bound::Excluded(s - 1), Bound::Excluded(e)))))));
+                    }
+                    if s == 0 {
+                        forms.push(("range(..e)", Box::new(|| describe(&Input::new(h).range(..e)))));
+                        if e > 0 {
+                            forms.push(("range(..=e-1)", Box::new(|| describe(&Input::new(h).range(..=e - 1)))));
+                        }
+                    }
+                    if e == n {
+                        forms.push(("range(s..)", Box::new(|| describe(&Input::new(h).range(s..)))));
+                        forms.push(("set_range(s..)", Box::new(|| { let mut i = Input::new(h); i.set_range(s..); describe(&i) })));
+                    }
+                    // unbounded sides refer to the haystack, not to the span set before
+                    let k = 1.min(n);
+                    if s == 0 {
+                        forms.push(("span(k..k) then set_range(..e)", Box::new(move || { let mut i = Input::new(h).span(k..k); i.set_range(..e); describe(&i) })));
+                        forms.push(("span(k..k) then range(..e)", Box::new(move || describe(&Input::new(h).span(k..k).range(..e)))));
+                    }
+                    if e == n {
+                        forms.push(("span(k..k) then set_range(s..)", Box::new(move || { let mut i = Input::new(h).span(k..k); i.set_range(s..); describe(&i) })));
+                        forms.push(("span(k..k) then range(s..)", Box::new(move || describe(&Input::new(h).span(k..k).range(s..)))));
+                    }
+                    if s == 0 && e == n {
+                        forms.push(("span(k..k) then range(..)", Box::new(move || describe(&Input::new(h).span(k..k).range(..)))));
+                        forms.push(("range(..)", Box::new(|| describe(&Input::new(h).range(..)))));
+                        forms.push(("Input::new alone", Box::new(|| describe(&Input::new(h)))));
+                    }
+                }
+                for (name, f) in &forms {
+                    st.add("input_forms", 1);
+                    let got = catch_unwind(AssertUnwindSafe(|| f())).unwrap_or_else(|p| format!("PANIC {}", crate::aut::panic_msg(&p)));
+                    if got != reference {
+                        bad(name, h, s, e, got, &reference);
+                    }
+                }
+                // flags survive changing the span and vice versa
+                let got = catch_unwind(AssertUnwindSafe(|| {
+                    let mut i = Input::new(h).anchored(Anchored::Yes).earliest(true);
+                    i.set_span(Span { start: s, end: e });
+                    let a = (i.get_anchored().is_anchored(), i.get_earliest(), i.start(), i.end());
+                    let mut j = Input::new(h).span(Span { start: s, end: e });
+                    j.set_anchored(Anchored::Yes);
+                    j.set_earliest(true);
+                    let b2 = (j.get_anchored().is_anchored(), j.get_earliest(), j.start(), j.end());
+                    (a, b2)
+                }));
+                st.add("input_forms", 1);
+                if got.as_ref().ok() != Some(&((true, true, s, e), (true, true, s, e))) {
+                    bad("flags + span", h, s, e, format!("{:?}", got.map_err(|p| crate::aut::panic_msg(&p))), "anchored, earliest and the span are independent");
+                }
+                // Span and Match accessors
+                if s <= e {
+                    let sp = Span { start: s, end: e };
+                    let m = aho_corasick::Match::must(1, s..e);
+                    let m2 = aho_corasick::Match::new(aho_corasick::PatternID::must(1), sp);
+                    let mut ok = sp.range() == (s..e) && sp.len() == e - s && sp.is_empty() == (s == e) && sp.offset(3) == Span { start: s + 3, end: e + 3 } && sp == (s..e);
+                    ok &= std::ops::Range::<usize>::from(sp) == (s..e) && Span::from(s..e) == sp;
+                    ok &= m == m2 && m.pattern().as_usize() == 1 && m.start() == s && m.end() == e && m.range() == (s..e) && m.span() == sp && m.len() == e - s && m.is_empty() == (s == e);
+                    let mo = m.offset(2);
+                    ok &= mo.start() == s + 2 && mo.end() == e + 2 && mo.pattern().as_usize() == 1;
+                    st.add("input_forms", 1);
+                    if !ok {
+                        bad("Span / Match accessors", h, s, e, format!("{:?} {:?} {:?}", sp, m, mo), "start/end/range/span/len/is_empty/offset as documented");
+                    }
+                }
+            }
+        }
+    }
+}
+
 /// Replay of "acdiff" cases (C05 prefilter differential, C10 span).
 pub fn replay_acdiff(case: &J) -> i32 {
     let pats = crate::report::pats_from_j(case.get("patterns").unwrap_or(&J::Null));
@@ -1196,6 +1340,10 @@ pub fn replay_acdiff(case: &J) -> i32 {
     }
     let rep = Report::new("C10", "quick");
     let mut st = Stats::default();
+    if case.str_of("mode") == "input-forms" {
+        check_input_forms(&rep, &mut st);
+        return (rep.nviol() > 0) as i32;
+    }
     for pre in [true, false] {
         let ac = build_ac(&pats, kind, ci, ak, pre).unwrap();
         check_span(&rep, &mut st, &ac, &pats, kind, ci, ak, &h, span.0, span.1, anchored);
